@@ -79,7 +79,12 @@ def main():
                 f.write(b'\n')
 
         if args.output is None:
-            print(f'Sphinx assembly output written to {output}')
+            try:
+                print(f'Sphinx assembly output written to {output}')
+            except (OSError, UnicodeError):
+                # The output file is complete: a standard output that
+                # is full or cannot encode the name is no reason to fail
+                pass
     except OSError as err:
         hidc.error(str(err))
         return 1
